@@ -100,7 +100,10 @@ func engineErr(format string, args ...any) *engineError {
 }
 
 // targetPanic is a Go-level panic in the interpreted program.
-type targetPanic struct{ v Value }
+type targetPanic struct {
+	v      Value
+	origin bool // the frame in which it was raised has been looked at
+}
 
 // pathAbort unwinds the host stack when the current path ends early.
 type pathAbort struct{ reason string }
